@@ -180,11 +180,14 @@ FaceHandle TopologyKernel::add_face(std::vector<HalfEdgeHandle> _halfedges, bool
         assert(it->is_valid() && (size_t)it->idx() < edges_.size() * 2u && !is_deleted(*it));
 #endif
 
+    // A face without halfedges is never valid (the face circulators rely on
+    // a first element), with or without topology check
+    if (_halfedges.empty()) {
+        return InvalidFaceHandle;
+    }
+
     // Perform topology check
     if(_topologyCheck) {
-        if (_halfedges.empty()) {
-            return InvalidFaceHandle;
-        }
         for (size_t i = 0; i + 1< _halfedges.size(); ++i) {
             if (to_vertex_handle(_halfedges[i]) != from_vertex_handle(_halfedges[i+1])) {
                 return InvalidFaceHandle;
@@ -388,11 +391,13 @@ CellHandle TopologyKernel::add_cell(std::vector<HalfFaceHandle> _halffaces, bool
 #endif
 
 
-    if(_topologyCheck) {
+    // A cell without halffaces is never valid (the cell circulators rely on
+    // a first element), with or without topology check
+    if (_halffaces.empty()) {
+        return InvalidCellHandle;
+    }
 
-        if (_halffaces.empty()) {
-            return InvalidCellHandle;
-        }
+    if(_topologyCheck) {
 
         /*
          * We test the following necessary properties for a closed 2-manifold cell:
